@@ -28,13 +28,15 @@ func init() {
 				"R7: no handler of the pipeline modifies the EDNS data (OPT record, Extra section) of the request message it received (directly or through a callee): the writers read the client's EDNS size, DO bit and options from that very object.",
 			NotCovered: "that dns.Msg.Truncate really fits the size and the encoded sizes themselves; the up-to-36-byte padding " +
 				"overshoot on DoH acknowledged in a code comment (numeric, out of static reach).",
-			Rules: map[string]string{"C08-R23": "the server itself does not edit the request it normalises the response against: no function of package dnsserver that hands a request to WriteMsg stores into that request (the reject path answering FORMERR / NOTIMP included: a rejected query with an OPT record gets one back)", "C08-R22": "the TCP writer adds nothing to a response after its last truncation: when the edns-tcp-keepalive option was added after normalisation, the response is truncated again before it is packed (within six bytes of the limit it would not pack, and the client would get SERVFAIL for an answer that only had to be truncated)", "C08-R21": "ecscache.setECS puts the ECS option into the OPT record the message already has, for responses too (table shared with C05-R4): a response is never given a second OPT record", "C08-R20": "the cloner re-initialises the additional section of the pooled message on every path (shared with C07-R1): a response built from a clone carries no OPT options (padding, keep-alive) of an earlier client; R21: setECS reuses the OPT record a response already has (table shared with C05-R4), so no response leaves with two OPT records", "C08-R19": "ecscache writeUpstreamResponse removes hop-to-hop options before the clone goes to the cache (store order; shared with C04-R5)", "C08-R18": "reservedLen: normalize truncates DNSCrypt responses to the limit less the bytes the dnscrypt module reserves for its header (the constant is read from the module's own normalize), so the module, which keeps the answers that still fit when it truncates on TCP, never has to drop a record; nothing is reserved for the other protocols", "C08-R17": "a pooled receive buffer is returned only after the request decoded from it has been served (buffer-lifetime rules shared with C06-R2)", "C08-R15": "the simple cache leaves the cached OPT record out of a hit (hop-by-hop options of the first requester do not reach later clients)", "C08-R16": "genErrorResponse builds the server's own error answers by SetRcode alone, so normalize gives them a fresh OPT record", "C08-R14": "optCloner.clone resets every field of the pooled OPT record, so padding and keep-alive options of an earlier response do not reach another client (shared with C07-R1)", "C08-RC": "class rules (error chains, shadowed results, character classes, crossed arguments, pool constructors, array pools, loop completeness, loop-carried buffers, replacing setters, complete clones, Grow arithmetic, pooled-buffer escape, sorted searches, fresh decode targets, per-iteration objects, whole-message copies, codec guards) over the packages this property rests on", "C08-R13": "addEDE builds a fresh response OPT from the request's UDP size and DO bit only", "C08-R12": "the filtered response is written once and for the original request (pipeline table shared with C01-R10)", "C08-R1": "normalise-before-serialise in every wire writer", "C08-R2": "maxDNSSize over all orderings",
+			Rules: map[string]string{"C08-R24": "the UDP response writer's size limit is a plain load of the MaxUDPRespSize setting: an unset (zero) maximum keeps the 512-byte floor instead of becoming 65535", "C08-R23": "the server itself does not edit the request it normalises the response against: no function of package dnsserver that hands a request to WriteMsg stores into that request (the reject path answering FORMERR / NOTIMP included: a rejected query with an OPT record gets one back)", "C08-R22": "the TCP writer adds nothing to a response after its last truncation: when the edns-tcp-keepalive option was added after normalisation, the response is truncated again before it is packed (within six bytes of the limit it would not pack, and the client would get SERVFAIL for an answer that only had to be truncated)", "C08-R21": "ecscache.setECS puts the ECS option into the OPT record the message already has, for responses too (table shared with C05-R4): a response is never given a second OPT record", "C08-R20": "the cloner re-initialises the additional section of the pooled message on every path (shared with C07-R1): a response built from a clone carries no OPT options (padding, keep-alive) of an earlier client; R21: setECS reuses the OPT record a response already has (table shared with C05-R4), so no response leaves with two OPT records", "C08-R19": "ecscache writeUpstreamResponse removes hop-to-hop options before the clone goes to the cache (store order; shared with C04-R5)", "C08-R18": "reservedLen: normalize truncates DNSCrypt responses to the limit less the bytes the dnscrypt module reserves for its header (the constant is read from the module's own normalize), so the module, which keeps the answers that still fit when it truncates on TCP, never has to drop a record; nothing is reserved for the other protocols", "C08-R17": "a pooled receive buffer is returned only after the request decoded from it has been served (buffer-lifetime rules shared with C06-R2)", "C08-R15": "the simple cache leaves the cached OPT record out of a hit (hop-by-hop options of the first requester do not reach later clients)", "C08-R16": "genErrorResponse builds the server's own error answers by SetRcode alone, so normalize gives them a fresh OPT record", "C08-R14": "optCloner.clone resets every field of the pooled OPT record, so padding and keep-alive options of an earlier response do not reach another client (shared with C07-R1)", "C08-RC": "class rules (error chains, shadowed results, character classes, crossed arguments, pool constructors, array pools, loop completeness, loop-carried buffers, replacing setters, complete clones, Grow arithmetic, pooled-buffer escape, sorted searches, fresh decode targets, per-iteration objects, whole-message copies, codec guards) over the packages this property rests on", "C08-R13": "addEDE builds a fresh response OPT from the request's UDP size and DO bit only", "C08-R12": "the filtered response is written once and for the original request (pipeline table shared with C01-R10)", "C08-R1": "normalise-before-serialise in every wire writer", "C08-R2": "maxDNSSize over all orderings",
 				"C08-R3": "truncate / packWithPrefix gates", "C08-R4": "normalize decision tree and OPT fields",
 				"C08-R5": "padding / keep-alive / option filter gates", "C08-R6": "pooled OPT records are reset before reuse", "C08-R7": "no handler modifies the EDNS data of the request message"},
 		}})
 }
 
 func runC08(c *an.Ctx) {
+	c.Floor("C08-R24", 1)
+	c08MaxUDPSizeAsConfigured(c, "C08-R24")
 	// ---- R23: the servers do not edit the request before writing the response
 	if n := c08ServerKeepsRequest(c, "C08-R23"); n < 3 {
 		c.Und("C08-R23", "functions of dnsserver that write a response for a request", token.NoPos, "only %d found", n)
